@@ -40,10 +40,14 @@ ReportExact == CheckRulesOp(rules) = CheckRulesDecl(rules)
 CleanTerminates == CheckRulesDecl(rules) => \A i \in 1..NNames : Ev(rules[i][2], Env, NNames + 1).x # "diverge"
 \* and conversely a rule that can reach a cycle does run out of any fuel
 \* unless evaluation short-circuits before the reference (not claimed)
-Holds == [n \in {"ReportExact", "CleanTerminates"} |-> IF n = "ReportExact" THEN ReportExact ELSE CleanTerminates]
+\* negative control: expected to FAIL (a reference under "not" is missed)
+ShippedReportExact == CheckRulesShipped(rules) = CheckRulesDecl(rules)
+Holds == [n \in {"ReportExact", "CleanTerminates", "ShippedReportExact"} |->
+            CASE n = "ReportExact" -> ReportExact [] n = "CleanTerminates" -> CleanTerminates [] n = "ShippedReportExact" -> ShippedReportExact]
 Evaluate == ph = 0 /\ ph' = 1 /\ fails' = {n \in DOMAIN Holds : ~Holds[n]} /\ UNCHANGED rules
 Next == Evaluate
 Spec == Init /\ [][Next]_vars
 InvReportExact == "ReportExact" \notin fails
 InvCleanTerminates == "CleanTerminates" \notin fails
+NegShippedWalkers == "ShippedReportExact" \notin fails
 =============================================================================
